@@ -233,7 +233,7 @@ def gen_func_case(rng, tier):
             t = rng.choice([ts[-1] + F(1, 4), ts[-1], ts[0], ts[0] + F(1, 16), rng.choice(ts) + rng.choice(DELAYS), ts[-1] + F(3, 2), rng.choice(ts) + F(1, 16),
                             ts[-1] + rng.choice(DELAYS)])
             calls.append({"t": C.q2s(t), "y": {p: C.q2s(F(rng.randint(-4, 4), rng.choice([1, 2]))) for p in sp}})
-        return {"kind": "func", "mdl": mdl, "records": recs, "calls": calls, "via_kwarg": rng.random() < 0.5, "vectorize": rng.random() < 0.3}
+        return {"kind": "func", "mdl": mdl, "records": recs, "calls": calls, "via_kwarg": rng.random() < 0.5, "vectorize": rng.random() < 0.3, "hist_wrapper": rng.random() < 0.4}
     raise C.HarnessError("C10 generator could not produce an admissible function case")
 
 
@@ -308,8 +308,16 @@ def impl_case(case):
                     from pyrates import clear_frontend_caches
                     clear_frontend_caches()
                     c, _, _ = M.build_pyrates(mdl)
+                    hsup = h
+                    if case.get("hist_wrapper"):
+                        class SizedHistory:
+                            """a user's own history object: callable, and a sized container that is still empty (falsy) when the function is compiled"""
+                            def __init__(self, inner): self.inner = inner
+                            def __call__(self, t): return self.inner(t)
+                            def __len__(self): return 0
+                        hsup = SizedHistory(h)
                     func, args, names, smap = c.get_run_func("ff", step_size=float(DT), solver="scipy", vectorize=case["vectorize"], float_precision="float64", verbose=False,
-                                                             clear=False, in_place=True, hist=h)
+                                                             clear=False, in_place=True, hist=hsup)
                     hist_arg = args[list(names).index("hist")]
                     if hist_arg is not h:
                         # a wrapper would be fine as long as it answers like the supplied history; it is used as returned
@@ -342,6 +350,9 @@ def adaptive_probe(seed):
     for k_spec in range(4):
         a = rng.choice([0.5, 1.0, 2.0]); b = rng.choice([-2.0, -1.0, 1.0]); d1 = rng.choice([0.25, 0.5, 1.0, 1e-4, 0.75]); d2 = rng.choice([0.25, 0.5, 1.25])
         specs.append((a, b, d1, d2, rng.choice([0.05, 0.1, 0.25]), rng.choice(["past", "t", "edge"]), ["Radau", "LSODA", rng.choice([None, "RK45", "DOP853"]), "BDF"][k_spec]))
+    # sampling much coarser than the delays: the history must hold the solver's own steps, not only the returned samples
+    specs.append((1.0, -2.0, 0.25, 0.25, 0.5, "past", None))
+    specs.append((2.0, 1.0, 0.25, 0.5, 1.0, rng.choice(["t", "edge"]), rng.choice(["RK45", "Radau"])))
     with M.Scratch():
         with warnings.catch_warnings():
             warnings.simplefilter("ignore")
